@@ -205,7 +205,29 @@ def _meta(m):
     # JSON has no tuples; metadata lists of length 2 starting with "tup" become tuples
     if isinstance(m, list) and m and m[0] == 'tup':
         return tuple(m[1:])
+    if isinstance(m, list) and m and m[0] == 'obj':
+        return U.MetaObj(m[1])      # identity-compared metadata (only where a check asks for it: C01)
     return m
+
+
+def with_object_metadata(desc, counter=None):
+    """copy of a description in which the metadata of cg / cn / dc nodes are identity-compared objects"""
+    counter = counter if counter is not None else [0]
+    if not isinstance(desc, list) or not desc or not isinstance(desc[0], str):
+        return desc
+    t = desc[0]
+    out = [with_object_metadata(x, counter) if isinstance(x, list) else x for x in desc]
+    if t in ('cn', 'dc') and len(out) == 4:
+        counter[0] += 1
+        out[3] = ['obj', counter[0]]
+    elif t == 'cg' and len(out) == 3:
+        counter[0] += 1
+        out[2] = ['obj', counter[0]]
+    elif t in ('dict', 'od', 'cm', 'cp', 'dsn'):
+        out[1] = [[k, with_object_metadata(v, counter)] for k, v in desc[1]]
+    elif t == 'dd':
+        out[2] = [[k, with_object_metadata(v, counter)] for k, v in desc[2]]
+    return out
 
 
 def canon(desc) -> str:
